@@ -10,11 +10,11 @@ import (
 	"crypto/rsa"
 	"encoding/binary"
 	"io"
+	"net"
 	"reflect"
 	"sync"
 	"time"
 
-	"github.com/k0kubun/pp"
 	"github.com/pkg/errors"
 	"github.com/xelaj/errs"
 
@@ -282,7 +282,22 @@ func (m *MTProto) startReadingResponses(ctx context.Context) {
 					}
 					verifPoint("reconnect.done", 0)
 				default:
-					check(err)
+					if ctx.Err() != nil {
+						return // connection was closed by Disconnect(), it's not an error
+					}
+					// malformed or unexpected message, transport error code, processing error: no one of them
+					// can be a reason to kill whole process from the goroutine, so it's only reported
+					m.warnError(err)
+
+					var netErr net.Error
+					if errors.As(err, &netErr) {
+						// connection is broken (reset by peer, timeout, etc.): same as EOF, we need new one
+						err = m.Reconnect()
+						if err != nil {
+							m.warnError(errors.Wrap(err, "can't reconnect"))
+						}
+						verifPoint("reconnect.done", 0)
+					}
 				}
 			}
 		}
@@ -392,9 +407,8 @@ messageTypeSwitching:
 		// игнорим, пришло и пришло, че бубнить то
 
 	case *objects.BadMsgNotification:
-		pp.Println(message)
-		panic(message) // for debug, looks like this message is important
-		return BadMsgErrorFromNative(message)
+		// it's important message, but it is not a reason to kill whole process
+		m.warnError(BadMsgErrorFromNative(message))
 
 	case *objects.RpcResult:
 		obj := message.Obj
